@@ -481,6 +481,24 @@ theorem dot_context_of_formula {ν : Type} (norm : List Char → Except PyErr (L
   rw [this]
   rfl
 
+/-- C17.6e  Histories on one context. However many formulas were parsed before with the same context
+object (the materializer's `layered_context`, or a mapping the caller hands to several parses), and
+whatever their left-hand sides were, the i-th parse gives what it gives on the untouched context — in
+particular every `.` of a formula expands with the left-hand-side variables OF THAT formula (none for
+a one-sided one) — and the context is the same object afterwards: a parse writes into a fresh layer
+over the caller's context only. -/
+theorem parse_history_independent {ν : Type} (norm : List Char → Except PyErr (List Char))
+    (codes : List (String × Option PyCode)) (explicit : Option (List String))
+    (own caller : LMap.Layer ν) (steps : List (List CharInfo)) :
+    Dot.parseHistory norm codes explicit own caller steps =
+      (steps.map (fun cs => (Dot.parseCall norm codes explicit own caller cs).1), caller) := by
+  induction steps with
+  | nil => rfl
+  | cons cs rest ih =>
+    simp only [Dot.parseHistory, List.map_cons]
+    have hc : (Dot.parseCall norm codes explicit own caller cs).2 = caller := rfl
+    rw [hc, ih]
+
 /-- C17.1c  Named-layer lookups on the materializer's context (`layered_context.data`, `.context`,
 `.transforms`; `named_layers`): the three names denote the three layers whatever the caller's context
 contains (a sub-layer of the context that is itself called `data` does not shadow the data layer);
